@@ -58,7 +58,50 @@ class ExprMixin:
             if v is self.POISON:
                 raise Unsupported(f"read of loop-havoced unset local {name}")
             return v
+        if env.func is not None and name in self._locals_of(env.func):
+            # a local that is assigned somewhere in this function but not on this path: CPython raises UnboundLocalError
+            # (a NameError, hence an ordinary Exception; the lattice has no leaf of its own for it)
+            e = self.make_exc("Exception")
+            e.tag = "raised-by-code"
+            e.fields["args"] = (f"UnboundLocalError: {name}",)
+            raise PyRaise(e)
         return self.lookup_global(env.module, name)
+
+    def _locals_of(self, info):
+        cache = self.__dict__.setdefault("_locals_cache", {})
+        if info.key not in cache:
+            names = set()
+            nonlocal_ = set()
+            for n in ast.walk(info.node):
+                if n is not info.node and isinstance(n, (ast.FunctionDef, ast.AsyncFunctionDef, ast.Lambda, ast.ClassDef)):
+                    if isinstance(n, (ast.FunctionDef, ast.AsyncFunctionDef, ast.ClassDef)):
+                        names.add(n.name)
+                    continue
+                if isinstance(n, ast.Name) and isinstance(n.ctx, ast.Store):
+                    names.add(n.id)
+                elif isinstance(n, (ast.Global, ast.Nonlocal)):
+                    nonlocal_ |= set(n.names)
+                elif isinstance(n, ast.ExceptHandler) and n.name:
+                    names.add(n.name)
+            # names stored only inside nested functions were collected too (ast.walk descends): remove those that are not
+            # stored at this function's own level
+            own = set()
+            stack = list(ast.iter_child_nodes(info.node))
+            while stack:
+                n = stack.pop()
+                if isinstance(n, (ast.FunctionDef, ast.AsyncFunctionDef, ast.Lambda, ast.ClassDef)):
+                    if not isinstance(n, ast.Lambda):
+                        own.add(n.name)
+                    continue
+                if isinstance(n, ast.Name) and isinstance(n.ctx, ast.Store):
+                    own.add(n.id)
+                elif isinstance(n, ast.ExceptHandler) and n.name:
+                    own.add(n.name)
+                elif isinstance(n, (ast.comprehension,)):
+                    continue
+                stack.extend(ast.iter_child_nodes(n))
+            cache[info.key] = own - nonlocal_
+        return cache[info.key]
 
     def lookup_global(self, module, name):
         r = self.tree.resolve_name(module, name)
